@@ -194,18 +194,20 @@ def cleanRun (H : List Handler) (enc : Enc) : SpecSt → List SrcToken → Bool
   | s, [] => !s.openEls.any (elHasEndEdits enc)
   | s, t :: ts => !implicitHere enc s t && cleanRun H enc (step H enc s t).1 ts
 
-/-- This end tag is stray or closes the innermost open element. -/
-def closesInnermost (s : SpecSt) : SrcToken → Bool
+/-- This end tag is stray, or every element it closes *implicitly* (the open elements above the one
+it names) is one no element handler ran on. In particular: it closes the innermost open element. -/
+def closesUntouched (s : SpecSt) : SrcToken → Bool
   | .endTag name _ =>
     match s.openEls.findIdx? (fun o => o.lname == asciiLowerBytes name) with
-    | some idx => idx == 0
+    | some idx => (s.openEls.take idx).all fun o => o.edit.isNone
     | none => true
   | _ => true
 
-/-- Well-nested run: every end tag is stray or closes the innermost open element, and no element with
-end-region edits is left open at the end of the input. -/
-def nestedRun (H : List Handler) (enc : Enc) : SpecSt → List SrcToken → Bool
+/-- Tidy run: elements that are closed implicitly by an ancestor's end tag were not touched by element
+handlers (text / comment handlers may have run inside them), and no element with end-region edits is
+left open at the end of the input. -/
+def tidyRun (H : List Handler) (enc : Enc) : SpecSt → List SrcToken → Bool
   | s, [] => !s.openEls.any (elHasEndEdits enc)
-  | s, t :: ts => closesInnermost s t && nestedRun H enc (step H enc s t).1 ts
+  | s, t :: ts => closesUntouched s t && tidyRun H enc (step H enc s t).1 ts
 
 end LolHtml.Spec.EditDoc
